@@ -54,6 +54,14 @@ def oracle(case, ctx):
     if variant is not None:
         # history: an earlier observation of a look-alike world must not leak into this one
         guarded(ctx, f'observation {f}', obsutil.observe, f, variant, area, seed)
+    # what a caller does with a returned visibility mask must not leak into later observations
+    from gym_gridverse.envs.visibility_functions import visibility_function_registry as VIS
+    from gym_gridverse.geometry import Position
+    from gym_gridverse.grid import Grid
+    vh_, vw_ = M.area_shape(area)
+    for vname in ('fully_transparent', 'raytracing'):
+        mask = VIS[vname](Grid.from_shape((vh_, vw_)), Position(-area[0][0], -area[1][0]))
+        mask[...] = False
     S = objs.build_state(sd)
     if case.get('pre'):
         # the same State object is observed twice: an earlier observation must not leak into the next one
@@ -97,9 +105,49 @@ def oracle(case, ctx):
     ctx.ev.case(case, nt=((off or odd) and nonfloor), classes=cl, key=[sd, area, f])
 
 
+# ------------------------------------------------------------------ through GridWorld.functional_observation
+
+
+@st.composite
+def strat_env(draw, tier):
+    space = draw(gen.space_s(must=('Floor', 'Box', 'Key')))
+    sd = draw(gen.state_s(space, min_hw=2, max_hw=6, floor_weight=1))
+    if not any(M.obj_type(o) == 'Box' for r in sd['grid'] for o in r):
+        sd['grid'][0][0] = 'B(K:NONE)'
+    return {'space': space, 'state': sd, 'view': [draw(st.integers(1, 5)), draw(st.sampled_from([1, 3, 5]))],
+            'f': draw(st.sampled_from(['fully_transparent', 'partially_occluded', 'raytracing'])), 'seed': draw(gen.seed_s)}
+
+
+def oracle_env(case, ctx):
+    """the environment's functional observation of *any* state is sound, whatever state the environment itself is in and
+    whatever it has memoised (a look-alike of the current state differs from it only inside boxes)"""
+    from vgv import envs
+    sd, view = case['state'], case['view']
+    variant = box_variant(sd)
+    comp = {'chain': ['move_agent'], 'rewards': [{'name': 'living_reward'}], 'term': {'name': 'reach_exit'}, 'obs': case['f'], 'view': view}
+    env = envs.mk_env(case['space'], M.shape(sd), comp, reset_state=sd)
+    env.set_seed(case['seed'])
+    env.reset()
+    area = gen.view_area(*view)
+    own = objs.canon_state(guarded(ctx, 'env.observation', lambda: env.observation))
+    for d, what in ((variant, 'a look-alike of the current state (other box contents)'), (sd, 'an equal copy of the current state')):
+        od = objs.canon_state(guarded(ctx, 'functional_observation', env.functional_observation, objs.build_state(d)))
+        full = M.full_view(d, area)
+        for i, row in enumerate(od['grid']):
+            for j, c in enumerate(row):
+                if c != 'H' and c != full['grid'][i][j]:
+                    ctx.fail(f'functional_observation[{case["f"]}] of {what}: view cell {(i, j)} shows {c} but the world cell holds {full["grid"][i][j]}', {'kind': 'soundness', 'f': case['f']})
+        if od['agent'][3] != d['agent'][3]:
+            ctx.fail(f'functional_observation of {what}: held item {d["agent"][3]} reported as {od["agent"][3]}', {'kind': 'soundness'})
+    ctx.ev.case(case, nt=True, classes=['f:' + case['f'], 'memoised_then_lookalike'])
+
+
 CHECKS = [
     Check('soundness', oracle, strategy=strat, examples={'quick': 700, 'thorough': 2500}, shards={'quick': 4, 'thorough': 16},
           rule='grids 1..7 (9 thorough) x agent anywhere x 4 headings x areas (extent <= 4/5 each way, symmetric or not, ymax != 0 too, view == grid) x 5 observation functions x seeds, '
                'against the model view-cell -> world-cell map; a look-alike world (different box contents) is observed first',
           required=['view_off_grid', 'rotated_asymmetric', 'ymax!=0', 'box_lookalike_history', 'view==grid', 'heading:L', 'heading:B', 'heading:R']),
+    Check('gridworld_functional_observation', oracle_env, strategy=strat_env, examples={'quick': 300, 'thorough': 1200}, shards={'quick': 2, 'thorough': 8},
+          rule='GridWorld assembled from built-ins, reset and its own observation read (memoised); then functional_observation of a look-alike state (== under the repository equality, other box contents) and of an equal copy against the model',
+          required=['memoised_then_lookalike']),
 ]
